@@ -1,14 +1,426 @@
 (* C10 — the taxonomy stays a strict tree under construction and transformation.
-   Property theorems only: each is closed by `exact <lemma>`. *)
-From Coq Require Import ZArith List Bool.
-From CTM Require Import Base.Sx Base.SortX Model.Tree Proofs.TreeP.
+   Property theorems only: each is closed by `exact <lemma>`.
+
+   Vocabulary (Model/Tree.v): a level is a Python dict in insertion order, node |-> list of
+   children (leaf level: list of cell rows); a tree is the list of its levels, top first;
+   level names are positions; node names are order-preserving integers.
+   Specification predicates used below (their definitions are restated as `Example c10_def_*`
+   at the end of the file, each proved by reflexivity):
+     lists lv p c        some entry (p, cs) of lv has c in cs          (p lists c / leaf p owns row c)
+     wf t                every level has pairwise different keys       (true of any Python dict)
+     inner_nodup t       no child list of a non-leaf level repeats a name
+                         (NOT enforced by validate_taxonomy_tree: finding F3)
+     path_ok t li x l    l = [(li-1, p1); (li-2, p2); ...; (0, p_li)] with every p_j a node of level j
+                         that lists the previous element (x first)
+     squash li l         l without its entry of level li, the levels above li renumbered down by one
+     up_level li j       position in the original tree of level j of the tree without level li *)
+From Coq Require Import ZArith List Bool Permutation Lia.
+From CTM Require Import Base.Sx Base.SortX Model.Tree Proofs.TreeP Proofs.TreeBackfillP.
 Import ListNotations.
 Open Scope Z_scope.
+
+(* ====================================================================== the validator *)
+
+(* accepted => below the top every node has exactly one parent, every listed child exists,
+   no row belongs to two leaves (nor twice to one) *)
+Theorem c10_validate_sound : forall t, validate t = true ->
+  t <> [] /\
+  (forall k, (S k < length t)%nat ->
+     (forall c, In c (nodes (nth (S k) t [])) ->
+        exists p, lists (nth k t []) p c /\ forall p', lists (nth k t []) p' c -> p' = p) /\
+     (forall p c, lists (nth k t []) p c -> In c (nodes (nth (S k) t [])))) /\
+  NoDup (leaf_rows t) /\
+  (forall l l' r, lists (leaf_level t) l r -> lists (leaf_level t) l' r -> l = l').
+Proof. exact validate_sound. Qed.
+Print Assumptions c10_validate_sound.
+
+(* the verdict is exactly "strict tree": soundness and completeness in one equivalence *)
+Theorem c10_validate_exact : forall t,
+  validate t = true <->
+  t <> [] /\
+  (forall k, (S k < length t)%nat ->
+     (forall c, In c (nodes (nth (S k) t [])) -> exists p, lists (nth k t []) p c) /\
+     (forall p c, lists (nth k t []) p c -> In c (nodes (nth (S k) t []))) /\
+     (forall p p' c, lists (nth k t []) p c -> lists (nth k t []) p' c -> p = p')) /\
+  NoDup (leaf_rows t).
+Proof. exact validate_iff. Qed.
+Print Assumptions c10_validate_exact.
+
+(* every defect is rejected: orphan child, dangling child, second parent, row shared by two
+   leaves, row repeated inside a leaf *)
+Theorem c10_validate_complete : forall t,
+  ((exists k c, (S k < length t)%nat /\ In c (nodes (nth (S k) t [])) /\ forall p, ~ lists (nth k t []) p c)
+     -> validate t = false) /\
+  ((exists k p c, (S k < length t)%nat /\ lists (nth k t []) p c /\ ~ In c (nodes (nth (S k) t [])))
+     -> validate t = false) /\
+  ((exists k p p' c, (S k < length t)%nat /\ lists (nth k t []) p c /\ lists (nth k t []) p' c /\ p <> p')
+     -> validate t = false) /\
+  ((exists l l' r, lists (leaf_level t) l r /\ lists (leaf_level t) l' r /\ l <> l')
+     -> validate t = false) /\
+  ((exists l rs, In (l, rs) (leaf_level t) /\ ~ NoDup rs) -> validate t = false).
+Proof. exact validate_complete. Qed.
+Print Assumptions c10_validate_complete.
+
+(* the one-edit mutants of ANY tree (valid or not) that introduce such a defect are rejected *)
+Theorem c10_mutants_rejected : forall t,
+  (* dangling child: a name that is not a node of the next level is appended to a child list *)
+  (forall k p c, (S k < length t)%nat -> In p (nodes (nth k t [])) -> ~ In c (nodes (nth (S k) t [])) ->
+     validate (replace_nth k (add_child (nth k t []) p c) t) = false) /\
+  (* second parent: a child of p is also listed under another node p' *)
+  (forall k p p' c, (S k < length t)%nat -> lists (nth k t []) p c -> In p' (nodes (nth k t [])) -> p' <> p ->
+     validate (replace_nth k (add_child (nth k t []) p' c) t) = false) /\
+  (* orphan child: a new node is added below the top and nobody lists it *)
+  (forall k c cs, (S k < length t)%nat -> (forall p, ~ lists (nth k t []) p c) ->
+     validate (replace_nth (S k) (add_node (nth (S k) t []) c cs) t) = false) /\
+  (* shared row: a row that some leaf owns is appended to a leaf (another one, or the same) *)
+  (forall l l' r, t <> [] -> lists (leaf_level t) l r -> In l' (nodes (leaf_level t)) ->
+     validate (replace_nth (length t - 1) (add_child (leaf_level t) l' r) t) = false).
+Proof. exact mutants_rejected. Qed.
+Print Assumptions c10_mutants_rejected.
+
+(* F3, in general: repeating a listed child never changes the verdict of the validator ... *)
+Theorem c10_dup_child_accepted : forall t k p c,
+  validate t = true -> (S k < length t)%nat -> lists (nth k t []) p c ->
+  validate (replace_nth k (add_child (nth k t []) p c) t) = true.
+Proof. exact dup_child_accepted. Qed.
+Print Assumptions c10_dup_child_accepted.
+
+(* ... and two more things it lets through: an inner node without children, an empty level *)
+Theorem c10_validator_gaps :
+  (validate f3_tree = true /\ ~ inner_nodup f3_tree) /\
+  (validate childless_tree = true /\ children_of (nth 0 childless_tree []) 1 = []) /\
+  (validate empty_level_tree = true /\ nth 1 empty_level_tree [(0, [])] = []).
+Proof. exact validator_gaps. Qed.
+Print Assumptions c10_validator_gaps.
+
+(* ====================================================================== construction from label columns *)
+
+(* records = per cell its label at every one of the n levels (top first).  get_taxonomy_tree
+   raises exactly when some label has two different parents; otherwise the tree it returns is
+   accepted, has as edges exactly the label combinations present, as nodes exactly the labels
+   present, and gives every leaf exactly the positions of the cells carrying its label *)
+Theorem c10_from_labels_exact : forall n records,
+  (1 <= n)%nat -> Forall (fun r => length r = n) records ->
+  (get_taxonomy_tree n records = TErr E_INVALID <->
+   exists k r r' c, (S k < n)%nat /\ In r records /\ In r' records /\
+      nth_error r (S k) = Some c /\ nth_error r' (S k) = Some c /\ nth_error r k <> nth_error r' k) /\
+  (~ (exists k r r' c, (S k < n)%nat /\ In r records /\ In r' records /\
+      nth_error r (S k) = Some c /\ nth_error r' (S k) = Some c /\ nth_error r k <> nth_error r' k) ->
+   exists t, get_taxonomy_tree n records = TOk t /\ validate t = true /\
+     length t = n /\ wf t /\ inner_nodup t /\
+     (forall k p c, (S k < n)%nat ->
+        (lists (nth k t []) p c <->
+         exists r, In r records /\ nth_error r k = Some p /\ nth_error r (S k) = Some c)) /\
+     (forall k x, (k < n)%nat ->
+        (In x (nodes (nth k t [])) <-> exists r, In r records /\ nth_error r k = Some x)) /\
+     (forall l i, lists (leaf_level t) l i <->
+        exists j r, nth_error records j = Some r /\ nth_error r (n - 1) = Some l /\ i = Z.of_nat j)).
+Proof. exact from_labels_exact. Qed.
+Print Assumptions c10_from_labels_exact.
+
+(* ====================================================================== parent and child queries *)
+
+(* children() and the child -> parent table are mutually inverse; every node below the top has
+   a parent; parents(level, node) is THE path to the top (one entry per level above, nearest
+   first) and never raises on a node of the tree *)
+Theorem c10_parent_child_inverse : forall t, validate t = true -> wf t ->
+  (forall k p c, (S k < length t)%nat ->
+     (In c (children_of (nth k t []) p) <-> parent_of (nth k t []) c = Some p)) /\
+  (forall k c, (S k < length t)%nat -> In c (nodes (nth (S k) t [])) ->
+     exists p, parent_of (nth k t []) c = Some p /\ In p (nodes (nth k t []))) /\
+  (forall li x, (li < length t)%nat -> In x (nodes (nth li t [])) ->
+     path_ok t li x (ancestors t li x) /\
+     (forall l, path_ok t li x l -> l = ancestors t li x) /\
+     map fst (ancestors t li x) = rev (seq 0 li) /\
+     ancestors_chk t li x = TOk (ancestors t li x)).
+Proof. exact parent_child_inverse. Qed.
+Print Assumptions c10_parent_child_inverse.
+
+(* ====================================================================== leaf lists *)
+
+(* as_leaves[level k][x] = leaves_of t k x.
+   Full statement (property C10): for every accepted tree the leaf lists of a node's children
+   are pairwise disjoint, repetition free, and their union is the node's leaf list.
+   That is REFUTED for the unchanged validator (c10_leaves_partition_refuted, F3).  Proved:
+   unconditionally the multiset-union and disjointness-between-nodes parts; the
+   no-repetition / partition parts under `inner_nodup t`, the condition the validator omits. *)
+Theorem c10_leaves_partition : forall t, validate t = true -> wf t ->
+  (forall k x, (S k < length t)%nat ->
+     Permutation (leaves_of t k x) (flat_map (leaves_of t (S k)) (children_of (nth k t []) x))) /\
+  (forall k x x' l, In l (leaves_of t k x) -> In l (leaves_of t k x') -> x = x') /\
+  (forall k, (k < length t)%nat ->
+     nth k (as_leaves t) [] = map (fun x => (x, leaves_of t k x)) (nodes (nth k t []))) /\
+  (inner_nodup t ->
+     (forall k x, NoDup (leaves_of t k x)) /\
+     (forall k x, (S k < length t)%nat ->
+        NoDup (flat_map (leaves_of t (S k)) (children_of (nth k t []) x))) /\
+     (forall k, (k < length t)%nat ->
+        Permutation (flat_map (leaves_of t k) (nodes (nth k t []))) (nodes (leaf_level t)))).
+Proof. exact leaves_partition_thm. Qed.
+Print Assumptions c10_leaves_partition.
+
+(* the leaf list of node x of level k holds exactly the leaves whose ancestor at level k is x
+   (ancestor_at t li l k = the entry of level k in parents(li, l); l itself for k = li) *)
+Theorem c10_leaves_by_ancestor : forall t, validate t = true -> wf t ->
+  forall k x l, (k < length t)%nat ->
+    (In l (leaves_of t k x) <-> ancestor_at t (length t - 1) l k = Some x).
+Proof. exact leaves_of_ancestor. Qed.
+Print Assumptions c10_leaves_by_ancestor.
+
+Theorem c10_leaves_partition_refuted : exists t x,
+  validate t = true /\ Forall (fun lv => NoDup (nodes lv)) t /\ ~ NoDup (leaves_of t 0 x).
+Proof. exact leaves_partition_refuted. Qed.
+Print Assumptions c10_leaves_partition_refuted.
+
+(* ====================================================================== leaf pairs *)
+
+(* Full statement (property C10): for every accepted tree and every parent, the pairs are
+   listed once each and are exactly the name-ordered pairs of leaves under two different
+   children of the parent.  REFUTED for the unchanged validator (c10_leaf_pairs_refuted, F3:
+   {"A": {"a": ["x","x","y"]}} yields the pair (x,x) and lists (x,y) twice).  Proved under
+   `inner_nodup t`, for every parent including the root (None) and leaf-level "parents". *)
+Theorem c10_leaf_pairs_exact : forall t parent,
+  validate t = true -> wf t -> inner_nodup t ->
+  (forall li x, parent = Some (li, x) -> (li < length t)%nat) ->
+  NoDup (leaf_pairs t parent) /\
+  forall a b,
+    In (a, b) (leaf_pairs t parent) <->
+    a < b /\ exists c c', In c (children t parent) /\ In c' (children t parent) /\ c <> c' /\
+                          In a (leaves_of t (child_level parent) c) /\
+                          In b (leaves_of t (child_level parent) c').
+Proof. exact leaf_pairs_exact_all. Qed.
+Print Assumptions c10_leaf_pairs_exact.
 
 (* F3: the validator accepts a child listed twice; the leaf pairs then contain a leaf paired
    with itself and a pair listed twice *)
 Theorem c10_leaf_pairs_refuted : exists t p,
   validate t = true /\ Forall (fun lv => NoDup (nodes lv)) t /\
-  (~ NoDup (leaf_pairs t p) \/ exists a, In (a, a) (leaf_pairs t p)).
+  (exists a, In (a, a) (leaf_pairs t p)) /\ ~ NoDup (leaf_pairs t p).
 Proof. exact leaf_pairs_refuted. Qed.
 Print Assumptions c10_leaf_pairs_refuted.
+
+(* ====================================================================== transformations *)
+
+(* drop_level of any level but the leaf level of an accepted tree: never raises, the result is
+   accepted (closure), has one level less, the same leaf level (leaf set AND rows), the same
+   nodes at every remaining level, and every node's ancestors are its old ancestors without the
+   dropped level -- as a list (squash) and level by level (ancestor_at) *)
+Theorem c10_drop_preserves : forall t li, validate t = true -> wf t -> (S li < length t)%nat ->
+  exists t', drop_level t li = TOk t' /\
+    validate t' = true /\ wf t' /\ length t' = (length t - 1)%nat /\
+    leaf_level t' = leaf_level t /\
+    (forall k, nodes (nth k t' []) = nodes (nth (up_level li k) t [])) /\
+    (forall j x, ancestors t' j x = squash li (ancestors t (up_level li j) x)) /\
+    (forall j x k, ancestor_at t' j x k = ancestor_at t (up_level li j) x (up_level li k)) /\
+    (inner_nodup t -> inner_nodup t').
+Proof. exact drop_preserves. Qed.
+Print Assumptions c10_drop_preserves.
+
+(* the three refusals of drop_level, in the order the code tests them *)
+Theorem c10_drop_errors : forall (t : tree) li,
+  (length t = 1%nat -> drop_level t li = TErr E_FLAT) /\
+  (length t <> 1%nat -> (length t <= li)%nat -> drop_level t li = TErr E_NOLEVEL) /\
+  (length t <> 1%nat -> S li = length t -> drop_level t li = TErr E_LEAF).
+Proof. exact drop_level_errors. Qed.
+Print Assumptions c10_drop_errors.
+
+(* any sequence of drops (each position refers to the tree current at that moment; drop of the
+   top level, repeated drops down to one level, ...) and drop-then-flatten *)
+Theorem c10_drop_many_preserves : forall lis t, validate t = true -> wf t -> drops_ok (length t) lis ->
+  exists t', drop_levels t lis = TOk t' /\ validate t' = true /\ wf t' /\
+    length t' = (length t - length lis)%nat /\
+    leaf_level t' = leaf_level t /\ flatten t' = flatten t /\
+    (forall k, nodes (nth k t' []) = nodes (nth (up_levels lis k) t [])) /\
+    (forall j x k, ancestor_at t' j x k = ancestor_at t (up_levels lis j) x (up_levels lis k)) /\
+    (inner_nodup t -> inner_nodup t').
+Proof. exact drop_levels_preserve. Qed.
+Print Assumptions c10_drop_many_preserves.
+
+(* drop_leaf_level: the level above becomes the leaf level and inherits the rows of its former
+   children.  Needs the child lists of that level to be repetition free: otherwise the
+   constructor rejects the result (c10_drop_leaf_refuted, another face of F3) *)
+Theorem c10_drop_leaf_preserves : forall t, validate t = true -> wf t -> (2 <= length t)%nat ->
+  child_lists_nodup (nth (length t - 2) t []) ->
+  exists t', drop_leaf_level t = TOk t' /\
+    validate t' = true /\ wf t' /\ length t' = (length t - 1)%nat /\
+    (forall k, (k < length t - 1)%nat -> nodes (nth k t' []) = nodes (nth k t [])) /\
+    (forall j x, (j < length t - 1)%nat -> ancestors t' j x = ancestors t j x) /\
+    (forall x, children_of (leaf_level t') x =
+               flat_map (children_of (leaf_level t)) (children_of (nth (length t - 2) t []) x)).
+Proof. exact drop_leaf_preserves. Qed.
+Print Assumptions c10_drop_leaf_preserves.
+
+Theorem c10_drop_leaf_refuted : exists t,
+  validate t = true /\ Forall (fun lv => NoDup (nodes lv)) t /\ (2 <= length t)%nat /\
+  drop_leaf_level t = TErr E_INVALID.
+Proof. exact drop_leaf_refuted. Qed.
+Print Assumptions c10_drop_leaf_refuted.
+
+(* the descendant leaves of every remaining node survive any sequence of drops: a node of the
+   reduced tree has the same leaves below it as it had in the original tree *)
+Theorem c10_drop_keeps_leaf_lists : forall lis t t', validate t = true -> wf t -> drops_ok (length t) lis ->
+  drop_levels t lis = TOk t' ->
+  forall k x l, (k < length t')%nat ->
+    (In l (leaves_of t' k x) <-> In l (leaves_of t (up_levels lis k) x)).
+Proof. exact drop_levels_leaves. Qed.
+Print Assumptions c10_drop_keeps_leaf_lists.
+
+
+(* flatten: never raises on an accepted tree; the result is the leaf level alone (leaf set and
+   rows kept, no ancestors left), is accepted, cannot be reduced further, is a fixed point of
+   flatten, and is what flatten gives after any transformation that keeps the leaf level *)
+Theorem c10_flatten_preserves : forall t, validate t = true -> wf t ->
+  exists t', flatten t = TOk t' /\ validate t' = true /\ wf t' /\ t' = [leaf_level t] /\
+    leaf_level t' = leaf_level t /\
+    (forall x, ancestors t' 0 x = []) /\
+    (forall li, drop_level t' li = TErr E_FLAT) /\ flatten t' = TOk t' /\
+    (forall u, leaf_level u = leaf_level t -> flatten u = TOk t').
+Proof. exact flatten_preserves. Qed.
+Print Assumptions c10_flatten_preserves.
+
+(* to_str / from_str.  On the modelled content to_str() followed by from_str() is the identity
+   (compared literally by the harness); with drop_cells=True the result is `drop_cells t`:
+   accepted, same levels, same nodes, same inner levels, no rows, same ancestors, and
+   is_equal_to the original (which is reflexive) *)
+Theorem c10_roundtrip_preserves : forall t, validate t = true -> wf t ->
+  validate (drop_cells t) = true /\ wf (drop_cells t) /\ length (drop_cells t) = length t /\
+  (forall k, nodes (nth k (drop_cells t) []) = nodes (nth k t [])) /\
+  (forall k, (S k < length t)%nat -> nth k (drop_cells t) [] = nth k t []) /\
+  leaf_rows (drop_cells t) = [] /\
+  (forall j x, (j < length t)%nat -> ancestors (drop_cells t) j x = ancestors t j x) /\
+  is_equal_to t (drop_cells t) = true /\ is_equal_to t t = true.
+Proof. exact roundtrip_preserves. Qed.
+Print Assumptions c10_roundtrip_preserves.
+
+(* ====================================================================== backfill (used by C01 / C17) *)
+
+(* backfill_assignments on one cell's record (per level: the node stored, or nothing).  Whatever
+   it returns keeps the levels that were present and gives every filled level the recorded
+   parent of the node one level down in the result; the only way to fail is a KeyError *)
+Theorem c10_backfill_spec : forall (t : tree) rec, length rec = length t ->
+  (forall rec', backfill t rec = TOk rec' ->
+     length rec' = length rec /\
+     (forall j a, nth j rec None = Some a -> nth j rec' None = Some a) /\
+     (forall j, (S j < length t)%nat -> nth j rec None = None ->
+        nth j rec' None = match nth (S j) rec' None with
+                          | Some c => parent_of (nth j t []) c
+                          | None => None
+                          end) /\
+     nth (length t - 1) rec' None = nth (length t - 1) rec None) /\
+  (forall c, backfill t rec = TErr c -> c = E_KEY).
+Proof. exact backfill_spec. Qed.
+Print Assumptions c10_backfill_spec.
+
+(* on an accepted tree, a record holding a leaf and -- at any subset of the other levels -- that
+   leaf's true ancestors (what mapping onto a flattened / reduced tree leaves behind) never
+   raises and comes back holding the leaf's ancestor at EVERY level *)
+Theorem c10_backfill_fills : forall t rec l, validate t = true -> wf t -> length rec = length t ->
+  In l (nodes (leaf_level t)) ->
+  nth (length t - 1) rec None = Some l ->
+  (forall k a, (k < length t)%nat -> nth k rec None = Some a -> ancestor_at t (length t - 1) l k = Some a) ->
+  exists rec', backfill t rec = TOk rec' /\ length rec' = length t /\
+    forall k, (k < length t)%nat -> nth k rec' None = ancestor_at t (length t - 1) l k.
+Proof. exact backfill_fills. Qed.
+Print Assumptions c10_backfill_fills.
+
+(* ====================================================================== non-vacuity *)
+(* a 3-level tree: two classes, three subclasses, five clusters (one without cells), 5 rows;
+   dict insertion orders and child orders deliberately not sorted *)
+Definition ex3 : tree :=
+  [ [(1, [12]); (0, [11; 10])];
+    [(10, [21; 20]); (12, [23; 24]); (11, [22])];
+    [(20, [0]); (21, [2; 1]); (22, []); (23, [3]); (24, [4])] ].
+
+Example c10_ex_hyps : validate ex3 = true /\ wf ex3 /\ inner_nodup ex3 /\ drops_ok (length ex3) [1%nat; 0%nat].
+Proof.
+  split; [vm_compute; reflexivity|]. split; [apply wf_small; reflexivity|].
+  split; [apply inner_nodup_small; reflexivity | cbn; lia].
+Qed.
+Example c10_ex_queries :
+  ancestors ex3 2 21 = [(1%nat, 10); (0%nat, 0)] /\ ancestor_at ex3 2 23 0 = Some 1 /\
+  leaves_of ex3 0 0 = [21; 20; 22] /\ leaves_of ex3 1 10 = [21; 20] /\
+  leaf_pairs ex3 (Some (0%nat, 0)) = [(21, 22); (20, 22)] /\
+  leaf_pairs ex3 None = [(21, 23); (20, 23); (22, 23); (21, 24); (20, 24); (22, 24)] /\
+  leaf_pairs ex3 (Some (2%nat, 20)) = [].
+Proof. vm_compute. repeat split. Qed.
+Example c10_ex_transform :
+  drop_level ex3 1 = TOk [ [(1, [23; 24]); (0, [22; 21; 20])]; nth 2 ex3 [] ] /\
+  drop_level ex3 0 = TOk (tl ex3) /\ drop_level ex3 2 = TErr E_LEAF /\ drop_level ex3 3 = TErr E_NOLEVEL /\
+  drop_levels ex3 [1%nat; 0%nat] = flatten ex3 /\ flatten ex3 = TOk [nth 2 ex3 []] /\
+  drop_leaf_level ex3 = TOk [ nth 0 ex3 []; [(10, [2; 1; 0]); (12, [3; 4]); (11, [])] ] /\
+  leaf_rows (drop_cells ex3) = [] /\ nodes (leaf_level (drop_cells ex3)) = [20; 21; 22; 23; 24].
+Proof. vm_compute. repeat split. Qed.
+Example c10_ex_backfill :
+  backfill ex3 [None; None; Some 21] = TOk [Some 0; Some 10; Some 21] /\          (* after flatten *)
+  backfill ex3 [Some 1; None; Some 24] = TOk [Some 1; Some 12; Some 24] /\        (* after drop_level 1 *)
+  backfill ex3 [None; Some 12; None] = TOk [Some 1; Some 12; None] /\             (* no leaf stored *)
+  backfill ex3 [None; None; Some 99] = TErr E_KEY /\                               (* not a node *)
+  (forall k a, (k < 3)%nat -> nth k [Some 1; None; Some 24] None = Some a -> ancestor_at ex3 2 24 k = Some a) /\
+  leaves_of ex3 0 1 = [23; 24] /\
+  (exists t', drop_levels ex3 [1%nat] = TOk t' /\ leaves_of t' 0 1 = [23; 24]).
+Proof.
+  repeat (split; [vm_compute; reflexivity|]). split.
+  - intros k a Hk. destruct k as [|[|[|k]]]; cbn [nth]; intros E; inversion E; subst; try reflexivity. lia.
+  - split; [reflexivity|]. eexists. split; vm_compute; reflexivity.
+Qed.
+(* a mutant of each rejected class, and the accepted duplicate child, on ex3 *)
+Example c10_ex_mutants :
+  validate (replace_nth 0 (add_child (nth 0 ex3 []) 1 99) ex3) = false /\      (* dangling *)
+  validate (replace_nth 0 (add_child (nth 0 ex3 []) 1 10) ex3) = false /\      (* second parent *)
+  validate (replace_nth 1 (add_node (nth 1 ex3 []) 13 []) ex3) = false /\      (* orphan *)
+  validate (replace_nth 2 (add_child (leaf_level ex3) 22 3) ex3) = false /\    (* shared row *)
+  validate (replace_nth 0 (add_child (nth 0 ex3 []) 0 10) ex3) = true.         (* duplicate child: F3 *)
+Proof. vm_compute. repeat split. Qed.
+(* label columns: four cells of a 3-level taxonomy; a fifth cell giving label 10 a second parent *)
+Definition ex_records : list (list Z) := [[0; 10; 20]; [0; 10; 21]; [1; 12; 23]; [0; 10; 20]].
+Example c10_ex_labels :
+  Forall (fun r => length r = 3%nat) ex_records /\
+  ~ (exists k r r' c, (S k < 3)%nat /\ In r ex_records /\ In r' ex_records /\
+       nth_error r (S k) = Some c /\ nth_error r' (S k) = Some c /\ nth_error r k <> nth_error r' k) /\
+  get_taxonomy_tree 3 ex_records =
+    TOk [ [(0, [10]); (1, [12])]; [(10, [20; 21]); (12, [23])]; [(20, [0; 3]); (21, [1]); (23, [2])] ] /\
+  get_taxonomy_tree 3 (ex_records ++ [[1; 10; 20]]) = TErr E_INVALID.
+Proof.
+  split; [repeat constructor|]. split; [|vm_compute; split; reflexivity].
+  intros H. apply (two_parents_b_spec 3) in H; [vm_compute in H; discriminate | lia].
+Qed.
+
+(* the specification predicates, unfolded *)
+Example c10_def_lists : forall lv p c, lists lv p c <-> exists cs, In (p, cs) lv /\ In c cs.
+Proof. intros. reflexivity. Qed.
+Example c10_def_wf : forall t, wf t <-> Forall (fun lv => NoDup (nodes lv)) t.
+Proof. intros. reflexivity. Qed.
+Example c10_def_child_lists_nodup : forall lv, child_lists_nodup lv <-> forall p cs, In (p, cs) lv -> NoDup cs.
+Proof. intros. reflexivity. Qed.
+Example c10_def_inner_nodup : forall a b rest,
+  (inner_nodup (a :: b :: rest) <-> child_lists_nodup a /\ inner_nodup (b :: rest)) /\
+  (inner_nodup [a] <-> True) /\ (inner_nodup [] <-> True).
+Proof. intros. cbn [inner_nodup]. tauto. Qed.
+Example c10_def_path_ok : forall t li x k p l,
+  (path_ok t li x [] <-> li = 0%nat) /\
+  (path_ok t li x ((k, p) :: l) <->
+   li = S k /\ In p (nodes (nth k t [])) /\ lists (nth k t []) p x /\ path_ok t k p l).
+Proof. intros. split; reflexivity. Qed.
+Example c10_def_squash : forall li l,
+  squash li l = map (fun kp => (if (fst kp <? li)%nat then fst kp else pred (fst kp), snd kp))
+                    (filter (fun kp => negb (fst kp =? li)%nat) l).
+Proof. intros. reflexivity. Qed.
+Example c10_def_up_level : forall li j, up_level li j = if (j <? li)%nat then j else S j.
+Proof. intros. reflexivity. Qed.
+Example c10_def_up_levels : forall li rest j,
+  up_levels [] j = j /\ up_levels (li :: rest) j = up_level li (up_levels rest j).
+Proof. intros. split; reflexivity. Qed.
+Example c10_def_drops_ok : forall n li rest,
+  (drops_ok n [] <-> True) /\ (drops_ok n (li :: rest) <-> (S li < n)%nat /\ drops_ok (n - 1) rest).
+Proof. intros. split; reflexivity. Qed.
+Example c10_def_child_level : forall li (x : node), child_level None = 0%nat /\ child_level (Some (li, x)) = S li.
+Proof. intros. split; reflexivity. Qed.
+Example c10_def_mutations : forall lv p c x cs,
+  add_child lv p c = map (fun nc => if fst nc =? p then (fst nc, snd nc ++ [c]) else nc) lv /\
+  add_node lv x cs = lv ++ [(x, cs)].
+Proof. intros. split; reflexivity. Qed.
+Example c10_def_witnesses :
+  f3_tree = [[(0, [1; 1; 2])]; [(1, []); (2, [])]] /\
+  childless_tree = [[(0, [2]); (1, [])]; [(2, [5])]] /\
+  empty_level_tree = [[(0, [])]; []].
+Proof. repeat split. Qed.
